@@ -70,7 +70,7 @@ Proof.
   replace (S (length r0) - 1)%nat with (length r0) by lia. rewrite index_app_last. cbn [bind].
   rewrite rev_app_distr. cbn [rev app]. destruct (run_texts l0) as [|c t] eqn:E.
   - rewrite strip_lines_ok. reflexivity.
-  - rewrite slice_to_app. cbn [bind]. rewrite strip_lines_ok, rev_involutive. reflexivity.
+  - rewrite slice_to_pred_app1. cbn [bind]. rewrite strip_lines_ok, rev_involutive. reflexivity.
 Qed.
 
 (* ---- the time boundaries line ---- *)
@@ -131,11 +131,10 @@ Qed.
 Theorem write_srt_c_ok l : write_srt_c l = write_srt l.
 Proof.
   unfold write_srt_c, write_srt. destruct l as [|it r]; [reflexivity|]. cbn [length Nat.eqb].
-  rewrite items_bytes_ok. cbn [bind]. unfold slice_to.
-  destruct (Nat.leb (length (bom ++ items_bytes 0 (it :: r)) - 1) (length (bom ++ items_bytes 0 (it :: r)))) eqn:E;
-    [|apply Nat.leb_gt in E; lia].
-  f_equal. rewrite <- (removelast_app bom (items_bytes_nonnil 0 it r)).
-  rewrite removelast_firstn_len. f_equal; lia.
+  rewrite items_bytes_ok. cbn [bind].
+  assert (Hn : bom ++ items_bytes 0 (it :: r) <> []).
+  { intros E. apply app_eq_nil in E. destruct E as [_ E]. exact (items_bytes_nonnil 0 it r E). }
+  rewrite (slice_to_pred_removelast _ 265 Hn). f_equal; apply (removelast_app bom (items_bytes_nonnil 0 it r)).
 Qed.
 
 (* ---- totality, now with content: no panic site of srt.go is reachable ---- *)
